@@ -149,7 +149,13 @@ def main(argv: List[str] | None = None) -> int:
             doc = {'unit': jsonable(v.get('unit')), 'choices': v.get('choices'), 'case': jsonable(v.get('case')),
                    'clause': v.get('clause'), 'features': jsonable(v.get('features', {}))}
             try:
-                again = mod.replay(doc)
+                from . import explore
+                with explore.watchdog(6 * explore.WATCHDOG_S):
+                    again = mod.replay(doc)
+            except explore.Hang:
+                # the re-execution does not finish either: that is the reproduction of a hang (and of anything else it
+                # would have shown afterwards)
+                again = [v]
             except Exception as exc:  # noqa: BLE001 - a harness defect must not hide what was found
                 lines.append(f'ERROR property={pid} re-execution of a violation raised {exc!r} (clause={v.get("clause")})')
                 rc = 2
